@@ -265,7 +265,9 @@ DIMS = {
     "hydrodynamicsTemplateModel.py": [(r"atol$|rtol$", 0), (r"^w[pm]?$|^wN$|wFromAlpha$", None),
                                       (r"(lower|upper)Limit$", 0)],
     "effectivePotential.py": [(r"^tol$", 0), (r"[gG]uess$", 1)],
-    "freeEnergy.py": [(r"tolAbsolute$", 1), (r"(rTol|extraTol)$", 0)],
+    "freeEnergy.py": [(r"tolAbsolute$", 1), (r"(rTol|extraTol)$", 0),
+                      # eigenvalues of the Hessian of Veff: masses squared
+                      (r"spinodalEvent$|^eigs\w*$|^d2V$|deriv2Field2$|^ddV\w*$", 2)],
     "grid3Scales.py": [(r"(tailLength(Inside|Outside)|wallThickness|wallCenter)$", -1),
                        (r"momentumFalloffT$", 1)],
     "*": [
@@ -693,6 +695,94 @@ def coq_string(s):
     return '"' + s.replace('"', '""') + '"'
 
 
+# -------------------------------------------------------------------------------------
+# (c) input flow: does every input of the manager's entry points reach a consumer on EVERY
+#     call?  (an input consumed only under a condition on earlier state makes the result
+#     depend on the history of calls: e.g. unit-carrying scales kept from a previous setup)
+
+FLOW_CLASS = ("manager.py", "WallGoManager")
+
+
+def input_flows(sources):
+    """for each method of WallGoManager and each of its parameters: (method, parameter,
+    used unconditionally?, used under a condition?).  A use is a load of the parameter
+    outside assert/logging/docstrings; `unconditional` = not nested in if/while/for/try/
+    conditional expression/boolean short-circuit/nested function of the method body."""
+    fname, cname = FLOW_CLASS
+    tree = ast.parse(sources[fname])
+    cls = [n for n in tree.body if isinstance(n, ast.ClassDef) and n.name == cname]
+    if not cls:
+        raise TranslateError("class %s not found in %s" % (cname, fname))
+    out = []
+    for m in cls[0].body:
+        if not isinstance(m, ast.FunctionDef):
+            continue
+        params = [a.arg for a in m.args.args + m.args.kwonlyargs if a.arg != "self"]
+        if not params:
+            continue
+        uses = {p: [False, False] for p in params}
+
+        def walk(node, cond):
+            if isinstance(node, (ast.Assert,)):
+                return
+            if isinstance(node, ast.Expr) and isinstance(node.value, ast.Call) and re.match(
+                    r"(print|warnings\.warn|(logging|logger)\.(debug|info|warning|error|"
+                    r"critical|exception|log))$", ast.unparse(node.value.func)):
+                return
+            if isinstance(node, ast.Name) and isinstance(node.ctx, ast.Load) and \
+                    node.id in uses:
+                uses[node.id][1 if cond else 0] = True
+                return
+            if isinstance(node, (ast.If, ast.While)):
+                walk(node.test, cond)
+                for c in node.body + node.orelse:
+                    walk(c, True)
+                return
+            if isinstance(node, ast.IfExp):
+                walk(node.test, cond)
+                walk(node.body, True)
+                walk(node.orelse, True)
+                return
+            if isinstance(node, ast.BoolOp):
+                walk(node.values[0], cond)
+                for v in node.values[1:]:
+                    walk(v, True)
+                return
+            if isinstance(node, ast.For):
+                walk(node.iter, cond)
+                for c in node.body + node.orelse:
+                    walk(c, True)
+                return
+            if isinstance(node, ast.Try):
+                for c in node.body:
+                    walk(c, cond)
+                for h in node.handlers:
+                    for c in h.body:
+                        walk(c, True)
+                for c in node.orelse + node.finalbody:
+                    walk(c, True)
+                return
+            if isinstance(node, (ast.FunctionDef, ast.Lambda)):
+                body = node.body if isinstance(node.body, list) else [node.body]
+                for c in body:
+                    walk(c, True)
+                return
+            for c in ast.iter_child_nodes(node):
+                walk(c, cond)
+        for st in m.body:
+            walk(st, False)
+        for p in params:
+            out.append((m.name, p, uses[p][0], uses[p][1]))
+    return out
+
+
+def flows_coq(flows):
+    rows = ["  mk_flow %s %s %s %s" % (coq_string(f), coq_string(p),
+                                       "true" if a else "false", "true" if c else "false")
+            for f, p, a, c in flows]
+    return ("Definition flows : list flow := [\n" + ";\n".join(rows) + "\n].\n")
+
+
 def sites_coq(sites):
     rows = []
     for f, fn, kind, text, dim, cnt in sites:
@@ -704,3 +794,7 @@ def sites_coq(sites):
             "Local Open Scope string_scope.\n"
             "(* generated by tools/gen_units.py (dimensional analysis of the AST) *)\n"
             "Definition sites : list site := [\n" + ";\n".join(rows) + "\n].\n")
+
+
+def facts_coq(sites, flows):
+    return sites_coq(sites) + flows_coq(flows)
